@@ -686,7 +686,7 @@ fn embed(nfa: &mut Nfa, d: &Dfa, from: usize) -> usize {
         nfa.new_state();
     }
     let end = nfa.new_state();
-    nfa.e(from, base);
+    nfa.e(from, base + d.start() as usize);
     for (s, row) in d.trans.iter().enumerate() {
         if !d.live[s] {
             continue;
@@ -1272,5 +1272,20 @@ mod tests {
                 Ok(())
             })
             .unwrap();
+    }
+}
+
+#[cfg(test)]
+mod tests2 {
+    use super::*;
+    #[test]
+    fn not_dot() {
+        let d = Dfa::from_rx(&Rx::Dot).unwrap();
+        assert!(d.accepts(b"a"));
+        assert!(!d.accepts(b"ab"));
+        let d = Dfa::from_rx(&Rx::Not(Box::new(Rx::Dot))).unwrap();
+        assert!(d.accepts(b""));
+        assert!(d.accepts(b"ab"));
+        assert!(!d.accepts(b"a"));
     }
 }
